@@ -26,6 +26,21 @@ def oracle_case(rep, c, only=None):
     return bad
 
 
+def extra_requests(c):
+    """rawdet, the C01 certificates, `tparse` on the tokens of every input, then the hypotheses of the byte/token
+    simulation (C01_bytes_accept_exactly): `cert singlechar` once per table and `charenv` once per input (the match
+    matrix of the REAL recognizers on this input is `charRecog`; whitespace skipping has nothing to skip)"""
+    kinds = {t: i + 1 for i, t in enumerate(c.gram.terms)}
+    rq = ["rawdet", "cert complete-parts", "cert c01"]
+    for (_, _, _, meta) in c.inputs:
+        ks = ",".join(str(kinds[t]) for t in meta["toks"]) or "-"
+        rq.append("tlr " + ks)
+    rq.append("cert singlechar")
+    for (_, _, inp, _), mat in zip(c.inputs, c.matrices):
+        rq.append(f"charenv {lf.hx(inp)} #{mat}")
+    return rq
+
+
 def run(rep, tier, seed):
     rng = random.Random(seed)
     proofs_ok = lean_obligations(rep, PROP_MODULE)
@@ -43,14 +58,7 @@ def run(rep, tier, seed):
     from gram import diamond_grammar
     cases += lf.bnf_cases(rng, 100 if tier == "quick" else 1500, tts=("LALR", "LALR_PAGER"), algo="LR",
                           max_len=3, n_sent=12, n_mut=12, generator=diamond_grammar)
-    def extra(c):
-        kinds = {t: i + 1 for i, t in enumerate(c.gram.terms)}
-        rq = ["rawdet", "cert complete-parts", "cert c01"]
-        for (_, _, _, meta) in c.inputs:
-            ks = ",".join(str(kinds[t]) for t in meta["toks"]) or "-"
-            rq.append("tlr " + ks)
-        return rq
-    lf.run_cases(cases, extra_requests=extra)
+    lf.run_cases(cases, extra_requests=extra_requests)
     check_cases(rep, cases, proofs_ok)
 
 
@@ -79,6 +87,26 @@ def check_cases(rep, cases, proofs_ok):
             if not certs_ok:
                 failures.append((c, None, "Cert.complete / Cert.structural fail on the compiler's table (hypotheses of "
                                           "C01_lr_accepts_exactly not met): " + c.extra[1]))
+        # hypotheses of the byte-level theorem C01_bytes_accept_exactly (the lexer lemma)
+        n = len(c.inputs)
+        if len(c.extra) >= 4 + 2 * n and c.extra[3 + n] == "bad-request":
+            rep.count("singlechar_not_evaluated(driver without `cert singlechar`)")
+        elif len(c.extra) >= 4 + 2 * n:
+            sc = c.extra[3 + n] == "1"
+            rep.count("singlechar_" + ("pass" if sc else "FAIL"))
+            if not sc:
+                failures.append((c, None, "Cert.singleCharLexer fails on the compiler's table although every terminal of the "
+                                          "generated grammar is one distinct ASCII character (hypothesis of "
+                                          "C01_bytes_accept_exactly not met: sorted_terminals != terminals with actions, a "
+                                          "shifted STOP, a missing state, ...)"))
+            n_bad = 0
+            for (_, _, inp, _), ce in zip(c.inputs, c.extra[4 + n:4 + 2 * n]):
+                rep.count("charenv_" + ("pass" if ce == "1" else "FAIL"))
+                n_bad += ce != "1"
+            if n_bad and sc:
+                failures.append((c, None, f"CharEnv fails on {n_bad} input(s): the real recognizers' match matrix differs from "
+                                          "charRecog (starts_with of one character, STOP at the end) or whitespace would be "
+                                          "skipped: hypothesis of C01_bytes_accept_exactly not met"))
         for k in oracle_case(rep, c):
             failures.append((c, k, "impl Ok != oracle sentence"))
         # token-level model (the one C01's theorems are about) next to the real parser
@@ -139,8 +167,7 @@ def replay(rep, path):
     c = lf.Case(p["grammar"], p["settings"].split(" "), [(p.get("algo", "LR"), p.get("partial", "0"), p["input"], {"toks": toks})], gram=g)
     kinds = {t: i + 1 for i, t in enumerate(g.terms)}
     lf.apply_replay_history(c, p)
-    lf.run_cases([c], extra_requests=lambda c: ["rawdet", "cert complete-parts", "cert c01",
-                                                 "tlr " + (",".join(str(kinds[t]) for t in toks) or "-")])
+    lf.run_cases([c], extra_requests=extra_requests)
     check_cases(rep, [c], True)
 
 
